@@ -16,9 +16,10 @@ chains exactly as they were.
 -/
 import PyFatModel.Proofs.FsFat
 import PyFatModel.Proofs.FsRefine
+import PyFatModel.Proofs.FsSync
 
 namespace Proofs.FsInv
-open Model.Fs Model.Alloc Proofs.FatRep Proofs.FatMachine Proofs.FsTree Proofs.FsFat
+open Model.Fs Model.Alloc Proofs.FatRep Proofs.FatMachine Proofs.FsTree Proofs.FsFat Proofs.FsSync
 
 /-! ## tree surgery -/
 
@@ -405,10 +406,13 @@ theorem updateDir_of_fits {v : Vol} {count : Nat} {s : St} {loc : Loc} {extra : 
 
 /-- what every call guarantees: the invariant afterwards, and after out-of-space the same tree, sizes and chains -/
 def Good (v : Vol) (count : Nat) (s : St) (out : St × Res) : Prop :=
-  Inv v count out.1 ∧ (Proofs.FsRefine.Soft out.2 → out.1.nodes = s.nodes ∧ out.1.rootChain = s.rootChain)
+  Inv v count out.1 ∧ (Proofs.FsRefine.Soft out.2 → out.1.nodes = s.nodes ∧ out.1.rootChain = s.rootChain) ∧
+    (Sync s → Sync out.1)
 
 theorem good_same {v : Vol} {count : Nat} {s : St} (h : Inv v count s) (r : Res) : Good v count s (s, r) :=
-  ⟨h, fun _ => ⟨rfl, rfl⟩⟩
+  ⟨h, fun _ => ⟨rfl, rfl⟩, fun hs => hs⟩
+
+theorem sync_flush {s : St} (hs : Sync s) : Sync (flush s) := ⟨rfl, hs.disk⟩
 
 theorem updateDir_irrel (v : Vol) (s : St) (nodes : List Node) (loc : Loc) :
     updateDir v s nodes loc = updateDir v { s with nodes := nodes } nodes loc := by
@@ -557,9 +561,9 @@ theorem writeChain_rep {v : Vol} {count : Nat} (hv : VolOK v count) {fat : List 
 theorem updateDir_fits_good {v : Vol} {count : Nat} {s : St} {loc : Loc} {extra : List (List Nat)}
     (h : InvX v count s none extra) (hloc : HLoc s.nodes loc) :
     ∃ s2, updateDir v s s.nodes loc = .ok s2 ∧ InvX v count s2 none extra ∧ s2.fat = s.fat ∧ s2.hint = s.hint ∧
-      s2.rootChain = s.rootChain ∧ s2.nodes = s.nodes := by
-  obtain ⟨s2, hu, e1, e2, e3, e4, _⟩ := updateDir_of_fits h hloc
-  exact ⟨s2, hu, h.congr e1 e3 e4, e1, e2, e3, e4⟩
+      s2.rootChain = s.rootChain ∧ s2.nodes = s.nodes ∧ s2.dfat = s.dfat := by
+  obtain ⟨s2, hu, e1, e2, e3, e4, e5⟩ := updateDir_of_fits h hloc
+  exact ⟨s2, hu, h.congr e1 e3 e4, e1, e2, e3, e4, e5⟩
 
 /-- an entry without children can go: what is left fits everywhere, its chain is the only thing left over -/
 theorem invX_erase {v : Vol} {count : Nat} {s : St} (h : Inv v count s) (n : Node) (hn : n ∈ s.nodes)
@@ -580,21 +584,22 @@ theorem invX_erase {v : Vol} {count : Nat} {s : St} (h : Inv v count s) (n : Nod
 
 theorem removeEntry_good {v : Vol} {count : Nat} (hv : VolOK v count) {s : St} (h : Inv v count s) (ploc : Loc) (n : Node)
     (hn : n ∈ s.nodes) (hch : n.isDir = true → ∀ x ∈ s.nodes, x.parent ≠ n.clus)
-    (hloc : HLoc (s.nodes.erase n) ploc) : Good v count s (removeEntry v s ploc n) := by
+    (hloc : HLoc (s.nodes.erase n) ploc) (hpar : n.parent = ploc.id) : Good v count s (removeEntry v s ploc n) := by
   unfold removeEntry
   rw [updateDir_irrel]
   have hx := invX_erase h n hn hch
-  obtain ⟨s2, hu, hi2, e1, _, e3, e4⟩ := updateDir_fits_good hx hloc
+  obtain ⟨s2, hu, hi2, e1, _, e3, e4, e5⟩ := updateDir_fits_good hx hloc
   rw [hu]
   simp only
+  have hdisk : Sync s → s2.disk.Perm (D s2.nodes) := fun hs => sync_update hs rfl hu (others_erase _ _ _ hpar)
   split
   · rename_i hc
-    refine ⟨?_, fun hs => absurd hs (not_soft_ok _)⟩
+    refine ⟨?_, fun hs => absurd hs (not_soft_ok _), fun hs => ⟨by rw [e5, e1]; exact hs.fat, hdisk hs⟩⟩
     have : opt n.chain = [] := by simp [opt, hc]
     rw [this] at hi2
     exact hi2
   · rename_i hc
-    refine ⟨?_, fun hs => absurd hs (not_soft_ok _)⟩
+    refine ⟨?_, fun hs => absurd hs (not_soft_ok _), fun hs => ⟨rfl, hdisk hs⟩⟩
     have hrep := release_rep hv.params hi2.rep hc
     exact ⟨hi2.tree, by simpa [flush, release] using hrep, hi2.rootFixed, hi2.rootChain, hi2.dirs, hi2.fitsRoot, hi2.fitsDir⟩
 
@@ -636,9 +641,13 @@ theorem create_good {v : Vol} {count : Nat} (hv : VolOK v count) {s : St} (h : I
           · exact good_same h _
           · rename_i s2 hu
             have := (updateDir_inv hv hx' ((hloc_of_locAt hl hpd).mono (fun d hd _ => List.mem_append_left _ hd)) hu).1
-            exact ⟨flush_inv this, fun hs => by rcases hs with hs | hs <;> cases hs⟩
+            exact ⟨flush_inv this, fun hs => absurd hs (not_soft_ok _),
+              fun hs => sync_flush_update hs (by rfl) hu (others_append s.nodes ⟨dir ++ [k], ploc.id, k, false, [], 0, slots⟩ ploc.id rfl)⟩
         | some n =>
           obtain ⟨hn, hnp⟩ := Proofs.FsRefine.find_path hf
+          have hnpar : n.parent = ploc.id := by
+            have hc : child s.nodes ploc.id k = some n := by rw [child_eq_find h.tree dir k ploc hr hpd]; exact hf
+            exact (child_some hc).2.1
           simp only
           by_cases hnd : n.isDir = true
           · simp only [hnd, ↓reduceIte]; exact good_same h _
@@ -661,7 +670,8 @@ theorem create_good {v : Vol} {count : Nat} (hv : VolOK v count) {s : St} (h : I
                   exact release_rep hv.params (fatRep_perm p (by simpa using h.rep)) hc
               have hs1n : (if n.chain = [] then s else release v s n.chain).nodes = s.nodes := by split <;> rfl
               have hs1r : (if n.chain = [] then s else release v s n.chain).rootChain = s.rootChain := by split <;> rfl
-              generalize (if n.chain = [] then s else release v s n.chain) = s1 at hrep hs1n hs1r
+              have hs1d : (if n.chain = [] then s else release v s n.chain).disk = s.disk := by split <;> rfl
+              generalize (if n.chain = [] then s else release v s n.chain) = s1 at hrep hs1n hs1r hs1d
               have hx := invX_replace_file h n ⟨n.path, n.parent, n.key, false, [], 0, n.slots⟩ hn hnd'
                 ⟨rfl, rfl, rfl, hnd'.symm, rfl, fun hd => by rw [hnd'] at hd; cases hd⟩ s1.fat s1.hint hrep
               rw [updateDir_irrel, hs1n]
@@ -673,7 +683,8 @@ theorem create_good {v : Vol} {count : Nat} (hv : VolOK v count) {s : St} (h : I
                   intro e; rw [e, hnd'] at hdd; cases hdd))
               obtain ⟨s2, hu, hi2, _, _, _, _⟩ := updateDir_fits_good hx' hloc
               rw [hu]
-              exact ⟨flush_inv hi2, fun hs => absurd hs (not_soft_ok _)⟩
+              exact ⟨flush_inv hi2, fun hs => absurd hs (not_soft_ok _),
+                fun hs => sync_flush_update hs hs1d hu (others_replace _ _ _ _ hnpar hnpar)⟩
 
 /-- a cluster of an owned chain is not zero and not in any other owned chain -/
 theorem fresh_clusters {p : Params} {count : Nat} {fat : List Nat} {a : List Nat} {chains : List (List Nat)}
@@ -739,18 +750,27 @@ theorem makedir_good {v : Vol} {count : Nat} (hv : VolOK v count) {s : St} (h : 
                   rw [← e]; exact clus_mem (h.dirs d hd hdd))⟩)
             split
             · -- the parent could not be written: the new cluster is released again
-              refine ⟨?_, fun _ => ⟨rfl, rfl⟩⟩
-              have := free_preserves hv.params inv2
-              exact ⟨h.tree, by simpa [release] using this, h.rootFixed, h.rootChain, h.dirs, h.fitsRoot, h.fitsDir⟩
+              refine ⟨?_, fun _ => ⟨rfl, rfl⟩, fun hs => ?_⟩
+              · have := free_preserves hv.params inv2
+                exact ⟨h.tree, by simpa [release] using this, h.rootFixed, h.rootChain, h.dirs, h.fitsRoot, h.fitsDir⟩
+              · have hbl : v.bound ≤ s.fat.length := by
+                  have h1 := hv.bound
+                  have h2 := h.rep.len
+                  omega
+                refine ⟨?_, hs.disk⟩
+                simp only [release]
+                rw [alloc_release_cancel ha hbl]
+                exact hs.fat
             · rename_i s2 hu
               have := (updateDir_inv hv (hx.congr rfl rfl rfl)
                 ((hloc_of_locAt hl hpd).mono (fun d hd _ => List.mem_append_left _ hd)) hu).1
-              exact ⟨flush_inv this, fun hs => absurd hs (not_soft_ok _)⟩
+              exact ⟨flush_inv this, fun hs => absurd hs (not_soft_ok _),
+                fun hs => sync_flush_update hs (by rfl) hu (others_append s.nodes ⟨dir ++ [k], ploc.id, k, true, r.clusters, 0, slots⟩ ploc.id rfl)⟩
 
 /-- the directory part of a resolving path is a directory of the tree, different from the entry itself -/
 theorem parent_loc {nodes : List Node} (h : TreeInv nodes) {dir : List Nat} {k : Nat} {n : Node} {ploc : Loc}
     (hrn : resolve nodes (dir ++ [k]) = some (.node n)) (hrp : resolve nodes dir = some ploc) :
-    HLoc (nodes.erase n) ploc ∧ ploc.isDir = true ∧ LocAt nodes ploc dir := by
+    HLoc (nodes.erase n) ploc ∧ ploc.isDir = true ∧ LocAt nodes ploc dir ∧ n.parent = ploc.id := by
   have hl := resolve_sound h dir ploc hrp
   have hpd : ploc.isDir = true := by
     rw [resolve_snoc, hrp] at hrn
@@ -759,7 +779,15 @@ theorem parent_loc {nodes : List Node} (h : TreeInv nodes) {dir : List Nat} {k :
     · assumption
     · simp at hrn
   obtain ⟨_, hnp⟩ := resolve_node h _ n hrn
-  refine ⟨?_, hpd, hl⟩
+  have hpar : n.parent = ploc.id := by
+    have hrn' := hrn
+    rw [resolve_snoc, hrp] at hrn'
+    simp only [walk, hpd, ↓reduceIte, Option.map_eq_some_iff] at hrn'
+    obtain ⟨m, hc, hm⟩ := hrn'
+    simp only [Loc.node.injEq] at hm
+    subst hm
+    exact (child_some hc).2.1
+  refine ⟨?_, hpd, hl, hpar⟩
   cases ploc with
   | root => trivial
   | node d =>
@@ -788,8 +816,8 @@ theorem remove_good {v : Vol} {count : Nat} (hv : VolOK v count) {s : St} (h : I
       · exact good_same h _
       · rename_i hnd
         obtain ⟨hn, _⟩ := resolve_node h.tree _ n hrn
-        obtain ⟨hloc, _, _⟩ := parent_loc h.tree hrn hrp
-        exact removeEntry_good hv h ploc n hn (fun hd => absurd hd hnd) hloc
+        obtain ⟨hloc, _, _, hpar⟩ := parent_loc h.tree hrn hrp
+        exact removeEntry_good hv h ploc n hn (fun hd => absurd hd hnd) hloc hpar
     · exact good_same h _
     · exact good_same h _
 
@@ -811,8 +839,8 @@ theorem removedir_good {v : Vol} {count : Nat} (hv : VolOK v count) {s : St} (h 
         · exact good_same h _
         · rename_i hany
           obtain ⟨hn, _⟩ := resolve_node h.tree _ n hrn
-          obtain ⟨hloc, _, _⟩ := parent_loc h.tree hrn hrp
-          refine removeEntry_good hv h ploc n hn (fun _ x hx e => hany ?_) hloc
+          obtain ⟨hloc, _, _, hpar⟩ := parent_loc h.tree hrn hrp
+          refine removeEntry_good hv h ploc n hn (fun _ x hx e => hany ?_) hloc hpar
           rw [List.any_eq_true]
           exact ⟨x, hx, by simp [e]⟩
     · exact good_same h _
@@ -821,18 +849,18 @@ theorem removedir_good {v : Vol} {count : Nat} (hv : VolOK v count) {s : St} (h 
 /-- a file entry is rewritten in place (new chain, new size), the FAT already updated: the parent is
     rewritten without a change to the FAT and the invariant holds again -/
 theorem replace_then_update {v : Vol} {count : Nat} {s : St} (h : Inv v count s) (f f' : Node) (hf : f ∈ s.nodes)
-    (hfd : f.isDir = false) (hs : SameSkel f' f) (s1 : St) (e2 : s1.rootChain = s.rootChain) (e3 : s1.nodes = s.nodes)
+    (hfd : f.isDir = false) (hs' : SameSkel f' f) (s1 : St) (e2 : s1.rootChain = s.rootChain) (e3 : s1.nodes = s.nodes)
     (hrep : FatRep v.p count s1.fat (opt f'.chain ++ own s.rootChain (s.nodes.erase f)))
-    (ploc : Loc) (hloc : HLoc s.nodes ploc) :
-    ∃ s2, updateDir v s1 (replaceNode s1.nodes f f') ploc = .ok s2 ∧ Inv v count (flush s2) := by
+    (ploc : Loc) (hloc : HLoc s.nodes ploc) (e4 : s1.disk = s.disk) (hpar : f.parent = ploc.id) :
+    ∃ s2, updateDir v s1 (replaceNode s1.nodes f f') ploc = .ok s2 ∧ Inv v count (flush s2) ∧ (Sync s → Sync (flush s2)) := by
   have hfd' : ∀ d, d ∈ s.nodes → d.isDir = true → d ≠ f := by
     intro d _ hdd e; rw [e, hfd] at hdd; cases hdd
-  have hx := invX_replace_file h f f' hf hfd hs s1.fat s1.hint hrep
+  have hx := invX_replace_file h f f' hf hfd hs' s1.fat s1.hint hrep
   rw [updateDir_irrel, e3]
   have hx' : InvX v count { s1 with nodes := replaceNode s.nodes f f' } none [] := hx.congr rfl e2 rfl
   have hloc' : HLoc (replaceNode s.nodes f f') ploc := hloc.mono (fun d hd hdd => mem_replace_of hd (hfd' d hd hdd))
   obtain ⟨s2, hu, hi2, _, _, _, _⟩ := updateDir_fits_good hx' hloc'
-  exact ⟨s2, hu, flush_inv hi2⟩
+  exact ⟨s2, hu, flush_inv hi2, fun hs => sync_flush_update hs e4 hu (others_replace _ _ _ _ hpar (by rw [hs'.2.1]; exact hpar))⟩
 
 theorem fwrite_good {v : Vol} {count : Nat} (hv : VolOK v count) {s : St} (h : Inv v count s)
     (path : List Nat) (pos n : Nat) : Good v count s (fwrite v s path pos n) := by
@@ -851,20 +879,20 @@ theorem fwrite_good {v : Vol} {count : Nat} (hv : VolOK v count) {s : St} (h : I
       · rename_i hfd
         have hfd' : f.isDir = false := by simpa using hfd
         obtain ⟨hf, _⟩ := resolve_node h.tree _ f hrn
-        obtain ⟨_, hpd, hl⟩ := parent_loc h.tree hrn hrp
+        obtain ⟨_, hpd, hl, hpar⟩ := parent_loc h.tree hrn hrp
         split
-        · exact ⟨flush_inv h, fun _ => ⟨rfl, rfl⟩⟩
+        · exact ⟨flush_inv h, fun _ => ⟨rfl, rfl⟩, sync_flush⟩
         · rename_i hn0
           split
-          · exact ⟨flush_inv h, fun _ => ⟨rfl, rfl⟩⟩
+          · exact ⟨flush_inv h, fun _ => ⟨rfl, rfl⟩, sync_flush⟩
           · rename_i fat hint chain hw
             have hrep := writeChain_rep hv (fatRep_perm (own_erase s.rootChain hf) (by simpa using h.rep)) (by omega) hw
-            obtain ⟨s2, hu, hi2⟩ := replace_then_update h f { f with chain := chain, size := max f.size (min pos f.size + n) } hf hfd'
+            obtain ⟨s2, hu, hi2, hsy⟩ := replace_then_update h f { f with chain := chain, size := max f.size (min pos f.size + n) } hf hfd'
               ⟨rfl, rfl, rfl, rfl, rfl, fun hd => by rw [hfd'] at hd; cases hd⟩
-              { s with fat := fat, hint := hint } rfl rfl hrep ploc (hloc_of_locAt hl hpd)
+              { s with fat := fat, hint := hint } rfl rfl hrep ploc (hloc_of_locAt hl hpd) rfl hpar
             simp only at hu ⊢
             rw [hu]
-            exact ⟨hi2, fun hs => absurd hs (not_soft_ok _)⟩
+            exact ⟨hi2, fun hs => absurd hs (not_soft_ok _), hsy⟩
     · exact good_same h _
     · exact good_same h _
 
@@ -892,21 +920,21 @@ theorem ftrunc_good {v : Vol} {count : Nat} (hv : VolOK v count) {s : St} (h : I
       · rename_i hfd
         have hfd' : f.isDir = false := by simpa using hfd
         obtain ⟨hf, _⟩ := resolve_node h.tree _ f hrn
-        obtain ⟨_, hpd, hl⟩ := parent_loc h.tree hrn hrp
+        obtain ⟨_, hpd, hl, hpar⟩ := parent_loc h.tree hrn hrp
         have hown := fatRep_perm (own_erase s.rootChain hf) (by simpa using h.rep)
         split
         · -- grow
           rename_i hgt
           split
-          · exact ⟨flush_inv h, fun _ => ⟨rfl, rfl⟩⟩
+          · exact ⟨flush_inv h, fun _ => ⟨rfl, rfl⟩, sync_flush⟩
           · rename_i fat hint chain hw
             have hrep := writeChain_rep hv hown (by omega) hw
-            obtain ⟨s2, hu, hi2⟩ := replace_then_update h f { f with chain := chain, size := m } hf hfd'
+            obtain ⟨s2, hu, hi2, hsy⟩ := replace_then_update h f { f with chain := chain, size := m } hf hfd'
               ⟨rfl, rfl, rfl, rfl, rfl, fun hd => by rw [hfd'] at hd; cases hd⟩
-              { s with fat := fat, hint := hint } rfl rfl hrep ploc (hloc_of_locAt hl hpd)
+              { s with fat := fat, hint := hint } rfl rfl hrep ploc (hloc_of_locAt hl hpd) rfl hpar
             simp only at hu ⊢
             rw [hu]
-            exact ⟨hi2, fun hs => absurd hs (not_soft_ok _)⟩
+            exact ⟨hi2, fun hs => absurd hs (not_soft_ok _), hsy⟩
         · -- shrink or same size
           by_cases hcut : m < f.size ∧ max 1 (numClus v.bpc m) < f.chain.length
           · simp only [hcut, and_self, ↓reduceIte]
@@ -926,19 +954,19 @@ theorem ftrunc_good {v : Vol} {count : Nat} (hv : VolOK v count) {s : St} (h : I
                 rw [opt_of_ne hcne] at hown
                 exact hown
               have hrep := split_preserves hv.params hown' l hgl
-              obtain ⟨s2, hu, hi2⟩ := replace_then_update h f
+              obtain ⟨s2, hu, hi2, hsy⟩ := replace_then_update h f
                 { f with chain := List.take (max 1 (numClus v.bpc m)) f.chain, size := m } hf hfd'
                 ⟨rfl, rfl, rfl, rfl, rfl, fun hd => by rw [hfd'] at hd; cases hd⟩
                 (flush { s with fat := (freeList v.p.cv.free s.fat (List.drop (max 1 (numClus v.bpc m)) f.chain)).set l v.p.cv.eocMax,
                                 hint := lowerHint s.hint (List.drop (max 1 (numClus v.bpc m)) f.chain) }) rfl rfl
-                (by rw [opt_of_ne hkne]; exact hrep) ploc (hloc_of_locAt hl hpd)
+                (by rw [opt_of_ne hkne]; exact hrep) ploc (hloc_of_locAt hl hpd) rfl hpar
               rw [hu]
-              exact ⟨hi2, fun hs => absurd hs (not_soft_ok _)⟩
+              exact ⟨hi2, fun hs => absurd hs (not_soft_ok _), hsy⟩
           · simp only [hcut, ↓reduceIte]
-            obtain ⟨s2, hu, hi2⟩ := replace_then_update h f { f with chain := f.chain, size := m } hf hfd'
-              ⟨rfl, rfl, rfl, rfl, rfl, fun hd => by rw [hfd'] at hd; cases hd⟩ s rfl rfl hown ploc (hloc_of_locAt hl hpd)
+            obtain ⟨s2, hu, hi2, hsy⟩ := replace_then_update h f { f with chain := f.chain, size := m } hf hfd'
+              ⟨rfl, rfl, rfl, rfl, rfl, fun hd => by rw [hfd'] at hd; cases hd⟩ s rfl rfl hown ploc (hloc_of_locAt hl hpd) rfl hpar
             rw [hu]
-            exact ⟨hi2, fun hs => absurd hs (not_soft_ok _)⟩
+            exact ⟨hi2, fun hs => absurd hs (not_soft_ok _), hsy⟩
     · exact good_same h _
     · exact good_same h _
 
@@ -961,5 +989,15 @@ theorem run_inv {v : Vol} {count : Nat} (hv : VolOK v count) (ops : List Op) :
     intro s h
     simp only [run, List.foldl_cons]
     exact ih _ (step_good hv h op).1
+
+/-- memory and device agree after every call of every history -/
+theorem run_sync {v : Vol} {count : Nat} (hv : VolOK v count) (ops : List Op) :
+    ∀ s : St, Inv v count s → Sync s → Sync (run v s ops) := by
+  induction ops with
+  | nil => intro s _ hs; exact hs
+  | cons op rest ih =>
+    intro s h hs
+    simp only [run, List.foldl_cons]
+    exact ih _ (step_good hv h op).1 ((step_good hv h op).2.2 hs)
 
 end Proofs.FsInv
